@@ -1,8 +1,8 @@
 (* C19 tie, re-checked on every run: the observations of the compiled library on this run's pairs
    (Tables/EqOrdCasesGen.v, generated) equal the model's, evaluated by the kernel. *)
-From Verif Require Import EqOrdRun EqOrdDescRun EqOrdPolRun EqOrdCasesGen.
+From Verif Require Import EqOrdRun EqOrdDescRun EqOrdPolRun EqOrdHashModel EqOrdCasesGen.
 
-Theorem cases_match_model : forallb dom_pairs_ok doms && deqdom_ok ddom_eq = true.
+Theorem cases_match_model : forallb dom_pairs_ok doms && forallb deqdom_ok ddoms = true.
 Proof. vm_compute. reflexivity. Qed.
 
 Theorem hash_streams_match_model : forallb dom_streams_ok doms = true.
@@ -12,4 +12,10 @@ Theorem dumps_distinct_in_model : forallb dom_spec_ok doms = true.
 Proof. vm_compute. reflexivity. Qed.
 
 Theorem policy_cases_match_model : forallb poldom_ok poldoms = true.
+Proof. vm_compute. reflexivity. Qed.
+
+(* the calls `Hash::hash` makes on a recording Hasher for every descriptor (fresh, warmed, clone of warmed) and every
+   concrete policy of the run equal desc_feed / cdesc_feed / cpol_feed, and equality of two recorded streams agrees
+   with equality of the model's feeds on every observed pair *)
+Theorem desc_policy_hash_streams_match_model : forallb hashdom_ok hashdoms = true.
 Proof. vm_compute. reflexivity. Qed.
